@@ -104,4 +104,26 @@ PROPS = {
                    "enumeration; S7 assumed.",
         explanation="sequential contracts + lemmas by SMT; AT1 structural; format ground.",
     ),
+    "C05": dict(
+        specs=["packer", "avp", "avp_types", "avp_grouped", "base", "node_model", "peer", "frames"],
+        ground=[],
+        replay=replay.generic,
+        trusted_base=["queue.Queue.get returns an arbitrary received chunk or times out (environment input)"],
+        assumptions=COMMON_ASSUME + [
+            "handler contract: the connection's message handler does not raise and does not touch the read buffer "
+            "(C14 proves the former for Node._receive_message)",
+            "the correspondence 'one inner-loop iteration = one unfolding of frames()' is established clause by clause by the "
+            "step obligations (wait / consume-exactly-one-frame / deliver-the-frame / give-up-only-on-impossible-length); "
+            "the composition with the spec-level chunking lemma is a two-line argument that is not itself machine-checked",
+            "streams whose frames announce lengths >= 20 (well-formed); for lengths < 20 only progress and an explicit close are proved"],
+        level_text="Deductive proof on the real work_read_queue: inner-loop variant (no input can make the reader spin without "
+                   "consuming input), per-iteration step clauses (a frame longer than the buffer waits with the buffer unchanged; "
+                   "a complete frame is consumed exactly, delivered at most once and what is delivered is the decode of exactly "
+                   "that frame; an undecodable frame is skipped alone; the loop gives up - closing the connection - only for a "
+                   "length field below 20), raises-nothing for the thread body, and the chunking-invariance and conservation "
+                   "lemmas of the frames() spec function by explicit induction (cvc5/z3).",
+        level_note="Any stream length, any chunking, any number of frames (no bound). Trusted: pyvc, SMT solvers, queue model; "
+                   "assumed: handler contract.",
+        explanation="loop variant + step clauses + frames() lemmas.",
+    ),
 }
